@@ -76,6 +76,26 @@ pub mod other_types {
     #[nutype(validate(predicate = |o: &Option<u8>| o.is_some()), derive(Debug, Clone, PartialEq, AsRef, IntoIterator))]
     pub struct Opt(Option<u8>);
 
+    // derive-set interactions on an inner type whose == is not reflexive (contains a float)
+    #[nutype(derive(Debug, Clone, Copy, PartialEq, PartialOrd))] pub struct FP((f32, u8));
+    #[nutype(derive(Debug, Clone, Copy, PartialEq))] pub struct FQ((f32, u8));
+    #[nutype(validate(predicate = |t: &(f64, i8)| t.1 >= 0), derive(Debug, Clone, Copy, PartialEq, PartialOrd, AsRef))] pub struct FR((f64, i8));
+
+    #[kani::proof]
+    #[kani::unwind(10)]
+    pub fn c13_other_float_inner_same_object() {
+        let x: f32 = kani::any(); let k: u8 = kani::any();
+        let v = FP::new((x, k)); let w = FQ::new((x, k));
+        kani::cover!(x.is_nan());
+        // comparing a value WITH ITSELF must still give the inner answer (false for NaN)
+        assert!((v == v) == ((x, k) == (x, k)), "PartialEq of the same object differs from the inner ==");
+        assert!((w == w) == ((x, k) == (x, k)));
+        assert!(v.partial_cmp(&v) == (x, k).partial_cmp(&(x, k)), "PartialOrd of the same object differs from the inner order");
+        let r = &v; assert!((*r == v) == ((x, k) == (x, k)));
+        let y: f64 = kani::any(); let j: i8 = kani::any();
+        if let Ok(a) = FR::try_new((y, j)) { assert!((a == a) == ((y, j) == (y, j))); assert!((a != a) == ((y, j) != (y, j))); }
+    }
+
     fn anyp() -> P { P { x: kani::any(), y: kani::any() } }
 
     #[kani::proof]
@@ -186,7 +206,7 @@ def generate(tier, seed):
                     first = False
                 src.append("pub mod %s {\n    use super::*;\n    use nutype::nutype;\n    %s\n    %s\n%s\n%s}\n" % (m, USE, d.prelude(), indent(d.attr()), hsrc))
     src.append(OTHER)
-    for hn, what in [("c13_other_views", "struct P{x:i32,y:i8}: views, comparisons, Hash vs inner/borrowed"), ("c13_generic_views", "generic W<T> at T=i16"),
+    for hn, what in [("c13_other_views", "struct P{x:i32,y:i8}: views, comparisons, Hash vs inner/borrowed"), ("c13_generic_views", "generic W<T> at T=i16"), ("c13_other_float_inner_same_object", "tuple inner types containing a float: ==/partial_cmp of a value with itself (NaN) under several derive sets"),
                      ("c13_display_plain", "Display `{}` vs inner Display (recording Formatter options + sink)"), ("c13_display_width_prec", "Display `{:>7.3}`"),
                      ("c13_display_flags", "Display `{:+#09}`"), ("c13_into_iter", "IntoIterator by value / by ref on [u8;2] and Option<u8>")]:
         plan.add(H(hn, "main", {"case": what}))
